@@ -60,6 +60,8 @@ def oracle(summary):
         ok = False
     if not ok:
         viol.append(("verdict:" + str(v), f"closed({v}) not justified by history {h}"))
+    if h.get("ignored"):
+        viol.append(("cause-ignored:" + h["ignored"].split()[0], f"a {h['ignored']} was delivered while the wormhole was open and it did not start closing (closed({v}))"))
     cause = h.get("cause")
     if cause and not cause.startswith("?") and v != cause:
         viol.append(("verdict-not-first-cause:" + str(cause), f"the wormhole started closing because of {cause} but reported closed({v})"))
